@@ -237,3 +237,8 @@ def run(ctx):
     ctx.rule('C06.8-atom-interning', 'atoms of the control message and payload are created with Atom::new while decoding: its interning tables agree entry by entry ("equal to what the peer sent")', floor=1)
     from ..etf import check_atom_tables
     check_atom_tables(ctx, 'C06.8-atom-interning')
+
+    # distribution-header frames are read by erltf's header reader: its layout / LongAtoms rules (C14.1, C14.2) and the atom-position rule
+    ctx.rule('C06.7-dist-header-reader', 'a conforming DIST_HEADER frame is read as the format prescribes (flag bytes, LongAtoms bit by parity of the reference count, entries): rules C14.1 / C14.2 re-run here', floor=5)
+    from . import c14 as _c14
+    _c14.header_rules(SubCtx(ctx, 'C06.7-dist-header-reader', 'header'))
